@@ -60,6 +60,7 @@ def run(tier, seed):
     # aliasing between the workspace and the store shows when one checkpoint is rewound to more than once
     deep = [c for c in gd.cases if len(c["steps"]) >= 4 and sum(1 for st in c["steps"] if st["o"]["k"] == "rewind" and st["ok"]) >= 2]
     total = 0
+    strays_seen = set()
     for cwd in ("root", "elsewhere"):
         for mode in ("direct", "router"):
             sel = g.cases
@@ -89,6 +90,12 @@ def run(tier, seed):
                         v.violation(f"{what} at step {k} ({o}) [cwd={cwd}, {mode}]: expected {pred['fs']}, got {ob['fs']}; ops {[s['o'] for s in c['_steps']]}",
                                     dict(rep, step=k, observed=ob))
                         break
+                    if ob.get("by_changed"):
+                        v.violation(f"step {k} ({o}) [cwd={cwd}, {mode}] changed or removed {ob['by_changed']}: files that no operation names and no checkpoint covers "
+                                    f"(a rewind cannot bring them back); ops {[s['o'] for s in c['_steps']]}", dict(rep, step=k, observed=ob))
+                        break
+                    if ob.get("strays"):
+                        strays_seen.update(ob["strays"])
                     if o["k"] in ("create", "rewind") and ob["ok"] != pred["ok"]:
                         v.violation(f"{o['k']} {'succeeded' if ob['ok'] else 'failed'} but the reference says ok={pred['ok']} at step {k} ({o}) [cwd={cwd}, {mode}]",
                                     dict(rep, step=k, observed=ob))
@@ -108,6 +115,7 @@ def run(tier, seed):
                     v.sample({"fs0": c["fs0"], "cwd": cwd, "mode": mode, "steps": [{"op": s["o"], "predicted_fs": s["fs"]} for s in c["_steps"]],
                               "observed_fs": [ob["fs"] for ob in res["obs"]]})
     v.cov["traces_validated_against_impl"] = total
+    v.cov["entries_left_beside_the_model_paths"] = sorted(strays_seen)[:20]
     v.assumptions += ["three paths (one nested), contents v1..v3; the 'direct' mode uses a 20-line adapter in place of ripd's WorkspaceCheckpointHook, the 'router' sample uses the real one",
                       "several inputs are posted to one session (checkpoints are per session); see C01 finding D12 for the numbering of such sessions"]
     return v.finish(
